@@ -61,6 +61,11 @@ class Judge:
     def run(self, scn):
         """Returns result dict with comparisons count, fault stats and the first violation (or None)."""
         rid, texts, names, knobs = scn['R'], scn['texts'], scn['names'], scn['knobs']
+        # one path, one content: when a path is named twice the file holds the text given for its last occurrence
+        by_name = {}
+        for n, t in zip(names, texts):
+            by_name[n] = t
+        texts = [by_name[n] for n in names]
         res = {'compared': 0, 'stats': {}, 'violation': None, 'fault_fired': False, 'lines': []}
 
         def viol(channel, text, expected, actual, extra=None):
@@ -158,7 +163,7 @@ class Judge:
                     viol('cli', texts[first_exc], list(r), list(out['outcome']),
                          {'note': 'library raises on this text but the tool reported success'})
         else:
-            stdout_fault = fault['kind'] in ('EPIPE', 'ENOSPC')
+            stdout_fault = fault['kind'] in ('EPIPE', 'ENOSPC', 'EAGAIN')
             k_eff = names.index(fault['file_name'])
             if fault['kind'] == 'BADUTF8':
                 # not a text of the domain: only "files before it are complete and in order" is demanded
@@ -172,6 +177,22 @@ class Judge:
                     CW.sink_ok_under_fault(sink, outs2, k_eff, False)
             else:
                 ok = CW.sink_ok_under_fault(sink, outs, k_eff, stdout_fault)
+            if not ok and knobs['stdout_encoding'] != 'utf-8':
+                # the other reading of "identical output" (text through a stdout that declares another encoding), as in the
+                # fault-free rule: transcode what reached the sink and apply the very same acceptance rule
+                try:
+                    import codecs
+                    text = codecs.getincrementaldecoder(knobs['stdout_encoding'])('strict').decode(sink, False)
+                    sink2 = text.encode('utf-8')
+                    if fault['kind'] == 'BADUTF8':
+                        ok = sink2.startswith(b''.join(o or b'' for o in outs[:k_eff]))
+                    elif any(o is None for o in outs):
+                        ok = b''.join(outs[:first_exc]).startswith(sink2) if stdout_fault or k_eff >= first_exc else \
+                            CW.sink_ok_under_fault(sink2, outs[:first_exc], k_eff, False)
+                    else:
+                        ok = CW.sink_ok_under_fault(sink2, outs, k_eff, stdout_fault)
+                except (UnicodeError, LookupError):
+                    ok = False
             if not ok:
                 viol('cli_fault_' + fault['kind'], texts[k_eff], ['bytes-acceptable-under-fault', b''.join(o or b'' for o in outs).hex()],
                      ['bytes', sink.hex()], {'cli_outcome': list(out['outcome'])})
@@ -444,6 +465,7 @@ def real_runs(judge, seed, corp, n):
             envx, loc, outenc = REAL_ENVS[i % len(REAL_ENVS)]
             scn['knobs']['locale'], scn['knobs']['stdout_encoding'] = loc, outenc
             scn['knobs']['entry'] = '__main__'
+            scn['knobs']['tty'] = False          # the real subprocess writes to a pipe
             d = os.path.join(tmp, str(i), 'w')      # one level down so that a '../x.md' name stays inside the scratch directory
             os.makedirs(d)
             for nme, t in zip(scn['names'], scn['texts']):
